@@ -36,7 +36,10 @@ KINDS = [("msg", "Target"), ("nested", "Target.Inner"), ("enum", "Kind"), ("nest
 # package paths whose names are string-prefixes of each other (a / ab, v1 / v1beta): a name-based instead of a
 # component-based comparison goes wrong exactly here
 SPECIAL = [(), ("a",), ("ab",), ("a", "c"), ("ab", "c"), ("a", "b"), ("a", "bc"), ("foo", "v1"), ("foo", "v1beta"),
-           ("foo", "v1beta", "x"), ("foo",)]
+           ("foo", "v1beta", "x"), ("foo",),
+           # long package paths that differ only in their FIRST component (any shortening of import aliases to their tail
+           # makes them collide in a module that refers to both)
+           ("north", "cloud", "platform", "api", "catalog", "v1", "types"), ("south", "cloud", "platform", "api", "catalog", "v1", "types")]
 WKT = [("ts", "google.protobuf.Timestamp"), ("du", "google.protobuf.Duration"), ("empty", "google.protobuf.Empty"),
        ("any", "google.protobuf.Any"), ("w32", "google.protobuf.Int32Value"), ("mask", "google.protobuf.FieldMask")]
 
